@@ -396,6 +396,25 @@ pub fn gen_c01(rng: &mut Rng, idx: u64) -> H1Scenario {
     let md = if rng.chance(1, 4) { 50 } else { 0 };
     conn.segs = gen_segs(rng, stream.len(), &interesting, mode, md);
     conn.grants = gen_grants(rng, &mut conn.sock, 0);
+    // handlers stay benign (read everything, answer 200) but may be slow, so that later requests —
+    // a malformed one in particular — are decoded while an earlier handler is still pending
+    let mut gates = vec![];
+    if rng.chance(1, 2) {
+        let n = conn.reqs.len();
+        for _ in 0..n {
+            let mut steps = vec![];
+            if rng.chance(1, 2) {
+                gates.push(GateEv { at_ms: if rng.chance(1, 4) { rng.below(60) } else { 0 } });
+                steps.push(Step::Gate(gates.len() - 1));
+            }
+            steps.push(if rng.chance(1, 4) { Step::ReadSlow } else { Step::ReadAll });
+            if rng.chance(1, 3) {
+                gates.push(GateEv { at_ms: if rng.chance(1, 4) { rng.below(60) } else { 0 } });
+                steps.push(Step::Gate(gates.len() - 1));
+            }
+            conn.progs.push(Prog { steps, answer: Answer::ok_empty() });
+        }
+    }
     // the peer half-closes once it has everything it can expect
     let ka = Ka::Os;
     let expected = expected_answered(&conn.reqs, true);
@@ -406,7 +425,7 @@ pub fn gen_c01(rng: &mut Rng, idx: u64) -> H1Scenario {
         ..Default::default()
     };
     let horizon = total_delay(&conn.segs) + 3000;
-    finish(&note, cfg, conn, vec![], gen_sched(rng), horizon)
+    finish(&note, cfg, conn, gates, gen_sched(rng), horizon)
 }
 
 /// Number of leading requests that must be answered with their own final response given that
